@@ -1,0 +1,32 @@
+//go:build verif
+
+package data
+
+// Contracts for the verifier in /verif (comment-only file; no declarations).
+//
+// Interface contracts of the ND family as seen by model kernels: a rank-1
+// view x is a logical sequence x.cells of length x.len.
+
+//@ iface Len1(x) returns (n)
+//@   ensures n == x.len && n >= 0
+//@   assigns nothing
+
+//@ iface Get(x, loc) returns (v)
+//@   requires len(loc) == 1 && 0 <= loc[0] && loc[0] < x.len
+//@   ensures v == x.at(loc[0])
+//@   assigns nothing
+
+//@ iface Set(x, loc, val)
+//@   requires len(loc) == 1 && 0 <= loc[0] && loc[0] < x.len
+//@   ensures x.cells == upd(old(x.cells), loc[0], val)
+//@   assigns x.cells
+
+//@ iface Get1(x, loc) returns (v)
+//@   requires 0 <= loc && loc < x.len
+//@   ensures v == x.at(loc)
+//@   assigns nothing
+
+//@ iface Set1(x, loc, val)
+//@   requires 0 <= loc && loc < x.len
+//@   ensures x.cells == upd(old(x.cells), loc, val)
+//@   assigns x.cells
